@@ -31,7 +31,10 @@ R = Registry(
         "rollback uses to discard in-memory changes) empties every unflushed-change buffer that a successful flush "
         "empties, and _expire_attributes removes the expired key from each of them; Session-side maintenance of the "
         "transaction's bookkeeping maps does not depend on the kind of the current transaction (a flush "
-        "subtransaction shares its parent's maps)."
+        "subtransaction shares its parent's maps); the operations that issue statements inside a live transaction "
+        "(connection, _connection_for_bind, _begin) leave it, on every exit, in a state from which the rollback that "
+        "Session._flush's handler performs is admissible; the undo of new objects (_expunge_states) copes with states "
+        "that a failed Session._register_persistent left both pending and registered in the identity map."
     ),
     not_decided="equality of post-rollback object state with the database; behaviour of the DBAPI connection itself.",
 )
@@ -698,6 +701,188 @@ def r7(ctx):
     ctx.require(found >= 1, "no Session-side access to the transaction bookkeeping maps found")
 
 
+# ---------------------------------------------------------------------- C32-R8: the recovery call stays admissible
+def _flush_recovery_methods(ctx, decl):
+    """declared SessionTransaction methods that the exception handlers of Session._flush call on the flush
+    subtransaction (today: rollback)"""
+    fl = inline_helpers(ctx, ctx.func(f"{SESSION}::Session._flush"))
+    txs = _local_bound_to_call(fl.node, "_begin")
+    ctx.require(txs, "_flush does not bind the begun subtransaction to a local")
+    out = set()
+    for n in ast.walk(fl.node):
+        if isinstance(n, ast.ExceptHandler):
+            for c in calls_in(ast.Module(body=n.body, type_ignores=[])):
+                if isinstance(c.func, ast.Attribute) and isinstance(c.func.value, ast.Name) and c.func.value.id in txs and c.func.attr in decl:
+                    out.add(c.func.attr)
+    ctx.require(out, "no state-declared SessionTransaction method is called on the flush subtransaction by a handler of _flush")
+    return sorted(out)
+
+
+@R.rule("C32-R8", floor=3, template="T-PATH",
+        desc="however a statement-issuing operation of a transaction ends, the recovery call of the flush stays admissible: "
+             "the operations that run inside a live transaction (declare_states methods that declare NO_CHANGE: connection, "
+             "_connection_for_bind, _begin) may park _state in a value that the prerequisites of the method Session._flush's "
+             "handler calls on the subtransaction (rollback) exclude, but every exit -- exceptional ones included, private "
+             "helpers read in place -- passes a store of an admissible state first")
+def r8(ctx):
+    decl = declared_methods(ctx)
+    recovery = _flush_recovery_methods(ctx, decl)
+    admissible = None   # None = any state
+    for r in recovery:
+        pres = decl[r][1]
+        if pres != "ANY":
+            names = {p.rsplit(".", 1)[-1] for p in pres}
+            admissible = names if admissible is None else admissible & names
+    n = 0
+    for name, (f0, pres, to) in sorted(decl.items()):
+        if not (to or "").endswith("NO_CHANGE"):
+            continue
+        n += 1
+        key = f"{f0.key}:recovery-admissible-on-every-exit"
+        f = inline_helpers(ctx, f0)
+        g = ctx.cfg(f.node)
+        stores = []
+        for nid in attr_store_nodes(g, "_state", None, "self"):
+            v = resolve_alias(f.node, g.node(nid).stmt.value)
+            d = dotted(v)
+            ctx.require(d is not None and "()" not in d, f"{f0.key}: `{unparse(g.node(nid).stmt)}` stores a computed state")
+            stores.append((nid, d.rsplit(".", 1)[-1]))
+        if not stores or admissible is None:
+            ctx.ok(key, "no _state write" if not stores else f"{recovery} admissible in any state", nontrivial=False)
+            continue
+        parked = [(nid, s) for nid, s in stores if s not in admissible]
+        back = [nid for nid, s in stores if s in admissible]
+        w = g.must_pass([nid for nid, _ in parked], [g.exit, g.raise_exit], back) if parked else None
+        ctx.check(w is None, key,
+                  f"{name}() can end (see path) with the transaction still in {sorted({s for _, s in parked})}, a state that the prerequisites "
+                  f"of {'/'.join(recovery)}() ({sorted(admissible)}) exclude: when a flush statement fails at that point, the handler of "
+                  f"Session._flush cannot roll the subtransaction back (the state check raises instead and replaces the original error), the "
+                  f"subtransaction stays current and every later Session.rollback()/commit()/flush() is refused the same way",
+                  f"{len(parked)} parked state(s), each replaced by one of {sorted(admissible)} on every exit", f0.loc, w)
+    ctx.require(n >= 1, "no NO_CHANGE method declared on SessionTransaction")
+
+
+# ---------------------------------------------------------------------- C32-R9: pending XOR registered, or an undo that copes
+def _session_coll(fnode, e, binds, attr: str) -> bool:
+    return resolved_dotted(fnode, e, binds) == f"self.{attr}"
+
+
+@R.rule("C32-R9", floor=1, template="T-SIBLING/T-PATH",
+        desc="Session._expunge_states -- the undo _restore_snapshot applies to the objects added in the transaction -- files each "
+             "state either as pending (in Session._new) or as registered (in the identity map); a Session method that promotes "
+             "pending states (registers them in the identity map and removes them from _new afterwards) and can be left by an "
+             "exception in between produces states that are both, so for such a state the undo must take it out of _new and out "
+             "of the identity map alike")
+def r9(ctx):
+    from ..cfg import no_exc  # noqa: F401
+    sess = ctx.index.cls(f"{SESSION}::Session")
+    # (1) promotion windows
+    windows = []
+    for name, f0 in sorted(sess.methods.items()):
+        attrs = {n.attr for n in ast.walk(f0.node) if isinstance(n, ast.Attribute)}
+        if f0.type_only or not {"identity_map", "_new"} <= attrs:
+            continue
+        f = inline_helpers(ctx, f0)
+        b = bindings(f.node)
+        g = None
+        reg, rem = [], []
+        for c in calls_in(f.node):
+            if isinstance(c.func, ast.Attribute) and c.func.attr in ("replace", "add") and _session_coll(f.node, c.func.value, b, "identity_map"):
+                reg.append(c)
+            elif isinstance(c.func, ast.Attribute) and c.func.attr in ("pop", "discard", "remove") and _session_coll(f.node, c.func.value, b, "_new"):
+                rem.append(c)
+        dels = [st for st in walk_stmts(f.node.body) if isinstance(st, ast.Delete)
+                and any(isinstance(t, ast.Subscript) and _session_coll(f.node, t.value, b, "_new") for t in st.targets)]
+        if not reg or not (rem or dels):
+            continue
+        ctx.functions_analysed.add(f0.key)
+        g = ctx.cfg(f.node)
+        reg_n = sorted({n for c in reg for n in g.nodes_containing(c)})
+        rem_n = sorted({n for c in rem for n in g.nodes_containing(c)} | {n for st in dels for n in g.nodes_for(st)})
+        if not (set(g.reachable(reg_n, include_starts=False)) & set(rem_n)):
+            continue   # the removal does not follow the registration: not a promotion
+        # witness: preferably an explicit `raise` reached after the registration completed normally (a later round of the loop)
+        raises = g.find(lambda n: n.kind == "stmt" and isinstance(n.stmt, ast.Raise))
+        after = lambda a, b_, lab: lab != "exc"   # noqa: E731
+        w = g.must_pass(reg_n, raises, rem_n, edge_ok=after, start_edge_ok=after) if raises else None
+        w = w or g.must_pass(reg_n, [g.raise_exit], rem_n, start_edge_ok=after)
+        if w is not None:
+            windows.append((f0, w))
+    # (2) the undo
+    rs = ctx.func(f"{ST}._restore_snapshot")
+    ctx.require(any(c.args and const_is(kw(c, "to_transient"), True) for c in calls_named(rs.node, "_expunge_states")),
+                "_restore_snapshot no longer undoes the new objects through _expunge_states(.., to_transient=True)")
+    ex0 = ctx.func(f"{SESSION}::Session._expunge_states")
+    ex = inline_helpers(ctx, ex0)
+    key = f"{ex0.key}:pending-and-registered"
+    if not windows:
+        ctx.ok(key, "no Session method can be left between registering a pending state and removing it from _new", nontrivial=False)
+        return
+    g = ctx.cfg(ex.node)
+    pm = parent_map(ex.node)
+    b = bindings(ex.node)
+    states_p = ex.params[1] if len(ex.params) > 1 else None
+    loops = [n for n in walk_local(ex.node) if isinstance(n, ast.For) and isinstance(n.target, ast.Name)
+             and isinstance(resolve_alias(ex.node, n.iter, b), ast.Name) and resolve_alias(ex.node, n.iter, b).id == states_p]
+    ctx.require(loops, "_expunge_states has no loop over its states parameter")
+
+    def scenario_ok(X):
+        """one loop round for a state that is in _new AND in the identity map: membership tests decided, the rest open"""
+        def val(e):
+            if isinstance(e, ast.Compare) and len(e.ops) == 1 and isinstance(e.ops[0], (ast.In, ast.NotIn)) and unparse(e.left) == X \
+                    and (_session_coll(ex.node, e.comparators[0], b, "_new") or _session_coll(ex.node, e.comparators[0], b, "identity_map")):
+                return isinstance(e.ops[0], ast.In)
+            if isinstance(e, ast.Call) and isinstance(e.func, ast.Attribute) and e.func.attr == "contains_state" \
+                    and _session_coll(ex.node, e.func.value, b, "identity_map") and len(e.args) == 1 and unparse(e.args[0]) == X:
+                return True
+            return None
+
+        def ok(a_, b2, lab):
+            if lab == "exc":
+                return False
+            n = g.nodes[a_]
+            if n.kind == "test" and lab in ("true", "false") and isinstance(n.stmt, (ast.If, ast.While)):
+                v = _tv3(expand_test(ctx, ex, n.stmt.test, b), val)
+                if v is not None and v != (lab == "true"):
+                    return False
+            return True
+        return ok
+
+    unmapped = unpended = False
+    for lp in loops:
+        X = lp.target.id
+        head = g.nodes_for(lp)[0]
+        starts = [n2 for n2, lab in g.succ[head] if lab == "true"]
+        ctx.require(starts, "_expunge_states: loop body not found on the CFG")
+        unmap_n, unpend_n = [], []
+        for c in calls_in(lp):
+            if not (isinstance(c.func, ast.Attribute) and c.args and unparse(c.args[0]) == X):
+                continue
+            if c.func.attr in ("safe_discard", "discard", "_fast_discard") and _session_coll(ex.node, c.func.value, b, "identity_map"):
+                unmap_n.extend(g.nodes_containing(c))
+            elif c.func.attr in ("pop", "discard", "remove") and _session_coll(ex.node, c.func.value, b, "_new"):
+                unpend_n.extend(g.nodes_containing(c))
+        for st in walk_stmts(lp.body):
+            if isinstance(st, ast.Delete) and any(isinstance(t, ast.Subscript) and _session_coll(ex.node, t.value, b, "_new") and unparse(t.slice) == X
+                                                  for t in st.targets):
+                unpend_n.extend(g.nodes_for(st))
+        ok = scenario_ok(X)
+        # every way through one round (to the next round or out of the loop) performs the effect
+        unmapped = unmapped or (bool(unmap_n) and g.must_pass(starts, [head, g.exit], unmap_n, edge_ok=ok) is None)
+        unpended = unpended or (bool(unpend_n) and g.must_pass(starts, [head, g.exit], unpend_n, edge_ok=ok) is None)
+    f0, w = windows[0]
+    missing = [t for t, okk in (("removed from Session._new", unpended), ("discarded from the identity map", unmapped)) if not okk]
+    ctx.check(not missing, key,
+              f"{', '.join(f_.qualname for f_, _ in windows)} registers pending states in the identity map and removes them from Session._new only "
+              f"afterwards, and can be left by an exception in between (see path): after such a failed flush a new object is pending AND "
+              f"registered, but _expunge_states() treats the two as exclusive -- for such a state it is not {' / not '.join(missing)}. "
+              f"Session.rollback() then leaves the identity map holding entries for rows that were rolled back, and the expire-all pass of "
+              f"_restore_snapshot wipes the attribute values of the objects it has just made transient (repeating the work inserts NULLs / "
+              f"fails with 'cannot be refreshed')",
+              f"a state that is both pending and registered is taken out of both ({len(windows)} promotion window(s) with an exceptional exit)",
+              ex0.loc, w)
+
+
 # ---------------------------------------------------------------------- self-test battery
 R.mutant("flush-commit-outside-try", SESSION,
          sub("            self.dispatch.after_flush_postexec(self, flush_context)\n\n            transaction.commit()\n\n        except:\n            with util.safe_reraise():\n                transaction.rollback(_capture_exception=True)\n",
@@ -922,3 +1107,49 @@ R.mutant("benign-restore-expire-condition-split", SESSION,
                        "            stale = s.modified or s in self._dirty\n"
                        "            if dirty_only and not stale:\n                continue\n"
                        "            s._expire(s.dict, self.session.identity_map._modified)\n"), None)
+
+# ------------------------------------------------------------------ str2-m (round-2 seeds): C32-R8, C32-R9
+_PROV_FINALLY = "        finally:\n            self._state = SessionTransactionState.ACTIVE\n\n    def prepare(self) -> None:\n"
+_PROV_STORE = "        self._state = SessionTransactionState.PROVISIONING_CONNECTION\n\n        local_connect = False\n"
+R.mutant("seed3-subtransaction-fast-path-outside-try-finally", SESSION,
+         chain(sub(_PROV_STORE, "        self._state = SessionTransactionState.PROVISIONING_CONNECTION\n\n"
+                                "        if self._parent and not self.nested:\n"
+                                "            conn = self._parent._connection_for_bind(bind, execution_options)\n"
+                                "            self._state = SessionTransactionState.ACTIVE\n            return conn\n\n        local_connect = False\n"),
+               sub("                if not self.nested:\n                    return conn\n            else:\n                if isinstance(bind, engine.Connection):\n",
+                   "            else:\n                if isinstance(bind, engine.Connection):\n")), "C32-R8")
+R.mutant("provisioning-state-reset-after-try-instead-of-finally", SESSION,
+         sub(_PROV_FINALLY, "        finally:\n            pass\n        self._state = SessionTransactionState.ACTIVE\n\n    def prepare(self) -> None:\n"), "C32-R8")
+R.mutant("provisioning-state-reset-only-for-own-connection", SESSION,
+         sub(_PROV_FINALLY, "        finally:\n            if local_connect:\n                self._state = SessionTransactionState.ACTIVE\n\n    def prepare(self) -> None:\n"), "C32-R8")
+R.mutant("provisioning-state-reset-only-on-sqlalchemy-errors", SESSION,
+         sub(_PROV_FINALLY, "        except sa_exc.SQLAlchemyError:\n            self._state = SessionTransactionState.ACTIVE\n            raise\n"
+                            "        else:\n            self._state = SessionTransactionState.ACTIVE\n\n    def prepare(self) -> None:\n"), "C32-R8")
+R.mutant("benign-subtransaction-fast-path-with-own-finally", SESSION,
+         chain(sub(_PROV_STORE, "        self._state = SessionTransactionState.PROVISIONING_CONNECTION\n\n"
+                                "        if self._parent and not self.nested:\n            try:\n"
+                                "                return self._parent._connection_for_bind(bind, execution_options)\n"
+                                "            finally:\n                self._state = SessionTransactionState.ACTIVE\n\n        local_connect = False\n"),
+               sub("                if not self.nested:\n                    return conn\n            else:\n                if isinstance(bind, engine.Connection):\n",
+                   "            else:\n                if isinstance(bind, engine.Connection):\n")), None)
+R.mutant("benign-provisioning-state-set-inside-try", SESSION,
+         chain(sub(_PROV_STORE, "        local_connect = False\n"),
+               sub("        should_commit = True\n\n        try:\n            if self._parent:\n",
+                   "        should_commit = True\n\n        try:\n            self._state = SessionTransactionState.PROVISIONING_CONNECTION\n            if self._parent:\n")), None)
+R.mutant("benign-provisioning-state-reset-in-helper-method", SESSION,
+         sub(_PROV_FINALLY, "        finally:\n            self._provisioning_done()\n\n    def _provisioning_done(self) -> None:\n"
+                            "        active = SessionTransactionState.ACTIVE\n        self._state = active\n\n    def prepare(self) -> None:\n"), None)
+# C32-R9 `pending-and-registered` fires on the unchanged tree (findings/C32_failed_registration_keeps_new_objects_in_identity_map.py);
+# self-tests are judged relative to that baseline, so only the repaired shapes (must be silent) can be replayed today.  The breaking
+# twins below were replayed by hand against a tree with the fix applied (notes/str2-m.md) and can be enabled once /repo is fixed.
+_EXP_OLD2 = "            if state in self._new:\n                self._new.pop(state)\n            elif self.identity_map.contains_state(state):\n"
+R.mutant("benign-expunge-states-discards-registered-pending-state", SESSION,
+         sub(_EXP_OLD2, "            if state in self._new:\n                self._new.pop(state)\n                if self.identity_map.contains_state(state):\n"
+                        "                    self.identity_map.safe_discard(state)\n            elif self.identity_map.contains_state(state):\n"), None)
+R.mutant("benign-expunge-states-independent-tests-and-aliases", SESSION,
+         sub(_EXP_OLD2 + "                self.identity_map.safe_discard(state)\n                self._deleted.pop(state, None)\n            elif self._transaction:\n",
+             "            pending = self._new\n            imap = self.identity_map\n            was_pending = state in pending\n            if was_pending:\n                pending.pop(state)\n"
+             "            if imap.contains_state(state):\n                imap.safe_discard(state)\n                self._deleted.pop(state, None)\n"
+             "            elif not was_pending and self._transaction:\n"), None)
+# R.mutant("expunge-states-fixed-then-discard-only-when-not-transient", SESSION,   # needs the fix in /repo first
+#          sub(<fixed text>, "... if not to_transient and self.identity_map.contains_state(state): ..."), "C32-R9")
